@@ -24,10 +24,11 @@ type WriterCfg struct {
 	InitLen  int    `json:"init_len"` // bytes writer: len of the initial slice
 	InitCap  int    `json:"init_cap"` // bytes writer: cap of the initial slice (-1 = nil slice)
 	Sizes    []int  `json:"sizes"`
-	Reverse  bool   `json:"reverse"`        // late regions are filled in reverse order of allocation
-	CoTenant int    `json:"co_tenant"`      // 0 off, 1 keep, 2 free again
-	PayPow2  bool   `json:"pay_pow2"`       // WriteBinary payloads live in buffers of power-of-two capacity
-	Warm     int    `json:"warm,omitempty"` // (Malloc(1), Flush) cycles performed before the history starts (size-statistics ring wraps at 10)
+	Reverse  bool   `json:"reverse"`             // late regions are filled in reverse order of allocation
+	CoTenant int    `json:"co_tenant"`           // 0 off, 1 keep, 2 free again
+	PayPow2  bool   `json:"pay_pow2"`            // WriteBinary payloads live in buffers of power-of-two capacity
+	SinkMode int    `json:"sink_mode,omitempty"` // how the sink fails: 0 (0,err); 1 (len,err); 2 (len/2, timeout error)
+	Warm     int    `json:"warm,omitempty"`      // (Malloc(1), Flush) cycles performed before the history starts (size-statistics ring wraps at 10)
 }
 
 type wop struct {
@@ -112,7 +113,7 @@ func (s *writerSys) Reset() {
 		s.expected = append([]byte(nil), s.target...)
 		s.pending = len(s.target)
 	} else {
-		s.sink = &EnvWriter{FailAt: s.cfg.FailAt}
+		s.sink = &EnvWriter{FailAt: s.cfg.FailAt, Mode: s.cfg.SinkMode}
 		dw := bufiox.NewDefaultWriter(s.sink)
 		s.w, s.dw = dw, dw
 	}
@@ -191,6 +192,10 @@ func (s *writerSys) Apply(op int, check bool) (what, sig string) {
 		}
 	}
 	sticky := func(err error) {
+		if s.sink != nil && !bytes.Equal(s.sink.Got, s.expected) {
+			fail("resend-after-failure", "after the sink failed, a later call delivered more bytes to it (%d, expected to stay at %d): data is sent twice", len(s.sink.Got), len(s.expected))
+			return
+		}
 		if err == nil {
 			fail("error-not-sticky", "the sink failed earlier but this call returned a nil error")
 		} else if !errors.Is(err, errSink) {
@@ -293,8 +298,15 @@ func (s *writerSys) Apply(op int, check bool) (what, sig string) {
 						fail("sink-error-lost", "the sink failed with %q but Flush returned %q", errSink, err)
 					}
 					s.failed = true
+					// what the failing sink took (nothing / everything / half) is all it will ever get of this flush
+					switch s.cfg.SinkMode {
+					case 1:
+						s.expected = append(s.expected, all...)
+					case 2:
+						s.expected = append(s.expected, all[:len(all)/2]...)
+					}
 					if !bytes.Equal(s.sink.Got, s.expected) {
-						fail("sink-content", "sink content changed although its write failed")
+						fail("sink-content", "after the failed write the sink holds %d bytes, expected %d (what it accepted of the failed write, nothing more)", len(s.sink.Got), len(s.expected))
 					}
 					return
 				}
